@@ -383,6 +383,8 @@ func walkAggregation(expr string, n *promParser.AggregateExpr) (src []Source) {
 		for _, s = range parseAggregation(expr, n) {
 			s.Aggregation = n
 			s.Operation = "stddev"
+			// The value returned by this aggregation is not the value of the aggregated series.
+			s.KnownReturn = false
 			s = excludeLabel(s, "Aggregation removes metric name.", n.PosRange, labels.MetricName)
 			src = append(src, s)
 		}
@@ -390,6 +392,8 @@ func walkAggregation(expr string, n *promParser.AggregateExpr) (src []Source) {
 		for _, s = range parseAggregation(expr, n) {
 			s.Aggregation = n
 			s.Operation = "stdvar"
+			// The value returned by this aggregation is not the value of the aggregated series.
+			s.KnownReturn = false
 			s = excludeLabel(s, "Aggregation removes metric name.", n.PosRange, labels.MetricName)
 			src = append(src, s)
 		}
@@ -397,6 +401,8 @@ func walkAggregation(expr string, n *promParser.AggregateExpr) (src []Source) {
 		for _, s = range parseAggregation(expr, n) {
 			s.Aggregation = n
 			s.Operation = "count"
+			// The value returned by this aggregation is not the value of the aggregated series.
+			s.KnownReturn = false
 			s = excludeLabel(s, "Aggregation removes metric name.", n.PosRange, labels.MetricName)
 			src = append(src, s)
 		}
@@ -404,6 +410,8 @@ func walkAggregation(expr string, n *promParser.AggregateExpr) (src []Source) {
 		for _, s = range parseAggregation(expr, n) {
 			s.Aggregation = n
 			s.Operation = "count_values"
+			// The value returned by this aggregation is not the value of the aggregated series.
+			s.KnownReturn = false
 			// Param is the label to store the count value in.
 			s = includeLabel(s, n.Param.(*promParser.StringLiteral).Val)
 			s = guaranteeLabel(s, n.Param.(*promParser.StringLiteral).Val)
